@@ -255,10 +255,34 @@ Fixpoint param_env (ps : list (ident * bool * ty)) (i : Z) : cenv :=
 Definition compile_body (fd : fdef) : list rinstr :=
   cexpr (Some (fd_name fd)) true 0 (param_env (fd_params fd) 0) (EBlock (fd_body fd)).
 
-(* func_body_emit_native *)
-Definition compile_func (fd : fdef) : list rinstr :=
-  ins0 BYTECODE_FUNC_DEF :: compile_body fd ++
-  [ins0 BYTECODE_LINE; ins0 BYTECODE_RET; ins0 BYTECODE_LABEL; ins0 BYTECODE_RETHROW].
+(* catch clauses (except_emit / except_all_emit): CLEAR_STACK nparams; [INT no; PUSH_EXCEPT;
+   OP_EQ_INT; JUMPZ next;] the clause's block (not in tail position: front/tailrec.c marks nothing in
+   handlers); RET; LABEL.  The clause sees the parameters only: level 0. *)
+Definition clause_body (fd : fdef) (body : list item) : list rinstr :=
+  cexpr None false 0 (param_env (fd_params fd) 0) (EBlock body).
+
+Definition clause_seg (fd : fdef) (c : exn * list item) : list rinstr :=
+  let cb := clause_body fd (snd c) in
+  ins BYTECODE_CLEAR_STACK (Z.of_nat (length (fd_params fd))) 0 :: ins BYTECODE_INT (exn_no (fst c)) 0 ::
+  ins0 BYTECODE_PUSH_EXCEPT :: ins0 BYTECODE_OP_EQ_INT :: ins BYTECODE_JUMPZ (len cb + 2) 0 ::
+  cb ++ [ins0 BYTECODE_RET; ins0 BYTECODE_LABEL].
+
+Definition all_seg (fd : fdef) (body : list item) : list rinstr :=
+  ins BYTECODE_CLEAR_STACK (Z.of_nat (length (fd_params fd))) 0 ::
+  clause_body fd body ++ [ins0 BYTECODE_RET; ins0 BYTECODE_LABEL].
+
+(* func_body_emit_native: the segments of a function — FUNC_DEF body LINE RET LABEL, then one per
+   clause — each ending with the LABEL that is the handler of its addresses; then RETHROW *)
+Definition body_seg (fd : fdef) : list rinstr :=
+  ins0 BYTECODE_FUNC_DEF :: compile_body fd ++ [ins0 BYTECODE_LINE; ins0 BYTECODE_RET; ins0 BYTECODE_LABEL].
+
+Definition clause_segs (fd : fdef) : list (list rinstr) :=
+  map (clause_seg fd) (fd_catches fd) ++
+  match fd_catch_all fd with Some b => [all_seg fd b] | None => [] end.
+
+Definition fsegs (fd : fdef) : list (list rinstr) := body_seg fd :: clause_segs fd.
+
+Definition compile_func (fd : fdef) : list rinstr := concat (fsegs fd) ++ [ins0 BYTECODE_RETHROW].
 
 End Funs.
 
@@ -308,6 +332,11 @@ Definition fnames (p : program) : list ident := map fd_name (p_funcs p).
 Definition bodies (p : program) : list (list rinstr) :=
   map std_body std_tab ++ map (compile_func (fnames p)) (p_funcs p).
 
+(* the lengths of the segments of every function (a stdlib body is one segment + RETHROW) *)
+Definition seglens (p : program) : list (list nat) :=
+  map (fun e => [length (std_body e) - 1]%nat) std_tab ++
+  map (fun fd => map (@length rinstr) (fsegs (fnames p) fd)) (p_funcs p).
+
 Definition code_entry (p : program) : nat := length (prelude (length (p_funcs p))).
 Definition head_len (p : program) : nat := code_entry p + length stub.
 
@@ -335,13 +364,20 @@ Fixpoint link (tbl : list nat) (a : nat) (c : list rinstr) : list rinstr :=
 
 Definition compile_program (p : program) : list rinstr := link (ftable p) 0 (rel_image p).
 
-(* exception_tab_insert: [0 ..) -> the stub's unhandled label; every function -> its LABEL
-   before RETHROW *)
-Fixpoint func_tab (a : nat) (bs : list (list rinstr)) : list (nat * nat) :=
-  match bs with [] => [] | b :: t => (a, a + length b - 2)%nat :: func_tab (a + length b) t end.
+(* exception_tab_insert: [0 ..) -> the stub's unhandled label; every segment of every function
+   (the body, each catch clause) -> the LABEL that ends it *)
+Fixpoint seg_entries (a : nat) (ls : list nat) : list (nat * nat) :=
+  match ls with [] => [] | n :: t => (a, a + n - 1)%nat :: seg_entries (a + n) t end.
+
+(* per function: the entries of its segments; the next function starts after the RETHROW *)
+Fixpoint func_tab (a : nat) (ls : list (list nat)) : list (nat * nat) :=
+  match ls with
+  | [] => []
+  | l :: t => seg_entries a l ++ func_tab (a + fold_right Nat.add 0 l + 1)%nat t
+  end.
 
 Definition exc_table (p : program) : list (nat * nat) :=
-  (0%nat, code_entry p + 8)%nat :: func_tab (head_len p) (bodies p).
+  (0%nat, code_entry p + 8)%nat :: func_tab (head_len p) (seglens p).
 
 Definition main_addr (p : program) : nat :=
   match fpos (p_main p) (fnames p) (Z.of_nat nstd) with
@@ -448,10 +484,37 @@ Definition param_names (ps : list (ident * bool * ty)) : list ident := map (fun 
 
 (* a function of the fragment: body in the fragment, parameters not named like a function, no catch
    clauses *)
+(* no call of the function `self` is in tail position of e (tail positions, front/tailrec.c: the
+   expression itself, both branches of ?: / if-else, the last expression item of a block) *)
+Definition nst_items_f (f : expr -> bool) :=
+  fix go (l : list item) : bool :=
+  match l with
+  | [] => true
+  | IExpr e :: t => match t with [] => f e | _ => go t end
+  | _ :: t => go t
+  end.
+
+Fixpoint nst (self : ident) (e : expr) {struct e} : bool :=
+  match e with
+  | ECond _ a b => nst self a && nst self b
+  | EBlock items => nst_items_f (nst self) items
+  | ECall (EVar f) _ => negb (N.eqb f self)
+  | _ => true
+  end.
+
+Definition no_self_tail_fd (fd : fdef) : bool := nst (fd_name fd) (EBlock (fd_body fd)).
+Definition no_self_tail (p : program) : bool := forallb no_self_tail_fd (p_funcs p).
+
+Definition no_catch (fd : fdef) : bool :=
+  match fd_catches fd, fd_catch_all fd with [], None => true | _, _ => false end.
+
 Definition func_in_F (FS : fsigs) (lv : nat) (fd : fdef) : bool :=
   items_F FS lv (param_names (fd_params fd)) (fd_body fd) &&
   forallb (fun x => negb (is_fname FS x)) (param_names (fd_params fd)) &&
-  match fd_catches fd, fd_catch_all fd with [], None => true | _, _ => false end.
+  (no_catch fd ||
+   (Nat.leb 5 lv && no_self_tail_fd fd &&
+    forallb (fun c => items_F FS lv (param_names (fd_params fd)) (snd c)) (fd_catches fd) &&
+    match fd_catch_all fd with Some b => items_F FS lv (param_names (fd_params fd)) b | None => true end)).
 
 Definition in_F1 := in_F [] 1.
 Definition in_F2 := in_F [] 2.
@@ -475,26 +538,13 @@ Definition prog_in_F (lv : nat) (p : program) : bool :=
 
 Definition prog_in_F3 := prog_in_F 3.
 
-(* no call of the function `self` is in tail position of e (tail positions, front/tailrec.c: the
-   expression itself, both branches of ?: / if-else, the last expression item of a block) *)
-Definition nst_items_f (f : expr -> bool) :=
-  fix go (l : list item) : bool :=
-  match l with
-  | [] => true
-  | IExpr e :: t => match t with [] => f e | _ => go t end
-  | _ :: t => go t
-  end.
+(* F5 (level 5; level 4 = closures is not part of it): F3 + catch clauses — `catch (name) { … }`
+   and `catch { … }` after a function body; the clause blocks are in the fragment over the
+   parameters only; a function with catch clauses has no self call in tail position (the evaluator
+   has no tail-call elimination: for a clause that faults in a later iteration the replaced
+   activations' clauses would run in Src/Eval.v and not in the implementation) *)
+Definition prog_in_F5 := prog_in_F 5.
 
-Fixpoint nst (self : ident) (e : expr) {struct e} : bool :=
-  match e with
-  | ECond _ a b => nst self a && nst self b
-  | EBlock items => nst_items_f (nst self) items
-  | ECall (EVar f) _ => negb (N.eqb f self)
-  | _ => true
-  end.
-
-Definition no_self_tail_fd (fd : fdef) : bool := nst (fd_name fd) (EBlock (fd_body fd)).
-Definition no_self_tail (p : program) : bool := forallb no_self_tail_fd (p_funcs p).
 
 
 
